@@ -7,6 +7,7 @@ import Tickit.Proof.WinGeom
 import Tickit.Proof.WinClose
 import Tickit.Proof.WinScroll
 import Tickit.Proof.WinFull
+import Tickit.Proof.WinScrollStep
 import Tickit.Props.C02
 /-
   C01 — The flushed screen equals the painter's-model composition of the window tree.
@@ -801,17 +802,148 @@ theorem scroll_damage_shift_exact (rect : Rect) (d r : Int) (hrect : rect.Nonemp
     · exact hx
   · exact Or.inr
 
-/-- Full statement of stage 5 (open): scrolling (`tickit_window_scroll`, `tickit_window_scrollrect`: children masked),
-    under every scroll oracle, keeps the invariant when the application's content moves with the scroll (`content'` is
-    `content` shifted inside the scrolled rectangle of the scrolled window). -/
-def scroll_step_full : Prop :=
-  ∀ (oracle : Oracle) (content content' : Id → Int → Int → Cell) (st st' : St) (win : Id) (rect : Rect) (d r : Int)
-    (pen : Option Pen) (ret : Bool),
-    GoodQ content st →
-    WinFlush.scroll oracle st win rect d r pen true = .ok (st', ret) →
-    (∀ w l c, content' w l c =
-      if w = win ∧ rect.memb l c = true then content w (l + d) (c + r) else content w l c) →
-    GoodQ content' st'
+/-- **`scroll_step_full`** (stage 5): scrolling (`tickit_window_scroll`, `tickit_window_scrollrect`: `_scroll` with the
+    children masked), under **every** scroll oracle — the terminal performs the request, refuses it, or does either from
+    one rectangle of the visible region to the next — keeps the invariant when the application's content moves with the
+    scroll (`content'` is `content` shifted inside the scrolled rectangle of the scrolled window).  Through
+    `Proof/WinVisible.lean` (the visible-region computation — the rectangle cut to the window and every ancestor, minus
+    visible children and front siblings of the window and of every ancestor — is exactly the set of terminal cells the
+    painter's model gives the window inside the rectangle: C05's `subtract_spec`, `add_spec`, `Inv`) and
+    `Proof/WinScrollStep.lean` (the terminal scroll against the shifted content and damage, the vacated strips, the
+    induction over the pairwise disjoint visible rectangles). -/
+theorem scroll_step_full (oracle : Oracle) (content content' : Id → Int → Int → Cell) (st st' : St) (win : Id) (rect : Rect)
+    (d r : Int) (pen : Option Pen) (ret : Bool) (hg : GoodQ content st)
+    (h : WinFlush.scroll oracle st win rect d r pen true = .ok (st', ret))
+    (hc : ∀ w l c, content' w l c =
+      if w = win ∧ rect.memb l c = true then content w (l + d) (c + r) else content w l c) :
+    GoodQ content' st' :=
+  scroll_step oracle content content' st st' win rect d r pen ret hg h hc
+
+/-- `tickit_window_scroll` (the whole window `w`, no pen) is the case `rect = (0, 0, w.lines, w.cols)`. -/
+theorem scroll_step_window (oracle : Oracle) (content content' : Id → Int → Int → Cell) (st st' : St) (win : Id) (w : Win)
+    (d r : Int) (ret : Bool) (hg : GoodQ content st) (hw : WinTree.get st.tree win = .ok w)
+    (h : WinFlush.scrollWindow oracle st win d r = .ok (st', ret))
+    (hc : ∀ w' l c, content' w' l c =
+      if w' = win ∧ (⟨0, 0, w.rect.lines, w.rect.cols⟩ : Rect).memb l c = true then content w' (l + d) (c + r)
+      else content w' l c) :
+    GoodQ content' st' := by
+  unfold scrollWindow at h
+  simp only [bind, Bind.bind, hw] at h
+  exact scroll_step_full oracle content content' st st' win _ d r none ret hg h hc
+
+/-! ### stage 6: every history -/
+
+/-- The states reachable from a fresh terminal by **any** finite history of window-tree operations — creating windows
+    (any flags), closing, showing, hiding, restacking, moving and resizing (followed by the proviso's exposes), exposing,
+    scrolling (under any oracle, chosen anew at every scroll; the content and its handlers move with the scroll) and
+    resizing the terminal — interleaved with flushes at arbitrary points.  `content` is what the windows paint now and
+    `beh` the handlers that repaint it. -/
+inductive Reach : (Id → Int → Int → Cell) → (Id → Rect → List DrawOp) → St → Prop where
+  | init (content : Id → Int → Int → Cell) (beh : Id → Rect → List DrawOp) (lines cols : Int) (pen : Option Pen) :
+      0 < lines → 0 < cols → Repaints content beh → Reach content beh (St.init lines cols pen)
+  | tree {content beh st} (op : TreeOp) (st' : St) :
+      Reach content beh st → op.Ok → runTreeOp st op = .ok st' → Reach content beh st'
+  | expose {content beh st} (id : Id) (e : Option Rect) (t' : Tree) :
+      Reach content beh st → WinTree.expose st.tree st.fuel id e = .ok t' → Reach content beh { st with tree := t' }
+  | scroll {content beh st} (oracle : Oracle) (win : Id) (rect : Rect) (d r : Int) (pen : Option Pen) (st' : St) (ret : Bool)
+      (content' : Id → Int → Int → Cell) (beh' : Id → Rect → List DrawOp) :
+      Reach content beh st → WinFlush.scroll oracle st win rect d r pen true = .ok (st', ret) →
+      (∀ w l c, content' w l c = if w = win ∧ rect.memb l c = true then content w (l + d) (c + r) else content w l c) →
+      Repaints content' beh' → Reach content' beh' st'
+  | flush {content beh st} (st' : St) (shots : List Shot) :
+      Reach content beh st → WinFlush.flush beh st = .ok (st', shots) → Reach content beh st'
+
+/-- Every reachable state satisfies the invariant, and its handlers repaint its content. -/
+theorem reach_good {content : Id → Int → Int → Cell} {beh : Id → Rect → List DrawOp} {st : St} (h : Reach content beh st) :
+    GoodQ content st ∧ Repaints content beh := by
+  induction h with
+  | init content beh lines cols pen hl hc hrep => exact ⟨goodQ_init content lines cols pen hl hc, hrep⟩
+  | tree op st' _ hop hrun ih => exact ⟨inv_step_full _ _ st' op hop ih.1 hrun, ih.2⟩
+  | expose id e t' _ he ih => exact ⟨goodQ_expose _ _ id e t' he ih.1, ih.2⟩
+  | scroll oracle win rect d r pen st' ret content' beh' _ hs hc hrep ih =>
+    exact ⟨scroll_step_full oracle _ content' _ st' win rect d r pen ret ih.1 hs hc, hrep⟩
+  | flush st' shots _ hf ih => exact ⟨(inv_step_queue _ _ _ st' shots hf ih.2 ih.1).1, ih.2⟩
+
+/-- **`C01_full`**: after any finite history of creating, closing, showing, hiding, restacking, moving, resizing,
+    exposing and scrolling windows and of resizing the terminal, with flushes at arbitrary points, on every tree shape,
+    geometry, z-order and visibility, and for terminals that accept, partially accept or refuse scroll requests: once
+    pending activity is flushed, every terminal cell that the painter's model gives to a window shows what that window
+    paints there — no stale or misplaced cell survives a flush — and nothing is left pending.  Provisos, as in the
+    property: the handlers repaint the area they are asked to, the application exposes old and new areas after changing
+    a geometry (`TreeOp.setGeometry`), and its content moves with a scroll.  Not covered: closing, hiding, showing or
+    moving the root window itself (`TreeOp.Ok`), `tickit_window_scroll_with_children`. -/
+theorem C01_full {content : Id → Int → Int → Cell} {beh : Id → Rect → List DrawOp} {st : St} (hreach : Reach content beh st)
+    (st' : St) (shots : List Shot) (h : WinFlush.flush beh st = .ok (st', shots)) :
+    Exact content st'.tree st'.screen ∧ st'.tree.root.damage = [] ∧ st'.tree.root.changes = [] := by
+  obtain ⟨hg, hrep⟩ := reach_good hreach
+  obtain ⟨_, h1, h2, h3⟩ := inv_step_queue beh content st st' shots h hrep hg
+  exact ⟨h1, h3, h2⟩
+
+/-- And what the flush did not own or was not asked to repaint is untouched: cells outside the pending damage (after the
+    queued requests were applied) keep what they showed. -/
+theorem C01_full_frame {content : Id → Int → Int → Cell} {beh : Id → Rect → List DrawOp} {st : St}
+    (_hreach : Reach content beh st) (st' : St) (t : Tree) (shots : List Shot) (h : flushRender beh st t = .ok (st', shots)) :
+    ∀ L C, ¬ Covered t.root.damage L C → st'.screen L C = st.screen L C :=
+  flush_keeps_undamaged beh st st' t shots h
+
+/-! ### non-vacuity of the full statements -/
+
+/-- A history with overlapping windows, a queued restacking request, a flush, a scroll the terminal performs and a
+    second flush. -/
+def demo : Res (St × List Shot) := do
+  let st1 ← runTreeOp (St.init 4 8 none) (.newWindow 0 ⟨1, 1, 2, 3⟩ false false false false none)
+  let st2 ← runTreeOp st1 (.newWindow 0 ⟨0, 2, 3, 4⟩ false false false false none)
+  let st3 ← runTreeOp st2 (.restack .raise 1)
+  let r4 ← WinFlush.flush solidBeh st3
+  let r5 ← WinFlush.scroll (fun _ _ _ _ _ => true) r4.1 1 ⟨0, 0, 2, 3⟩ 1 0 none true
+  WinFlush.flush solidBeh r5.1
+
+theorem demo_ok : isOk demo = true := by decide +kernel
+
+/-- The hypotheses of `inv_step_full`, `inv_step_queue`, `scroll_step_full` and `C01_full` are satisfiable together: the
+    history `demo` is a `Reach` derivation whose every step succeeds, ending in a flush. -/
+example : ∃ (st st' : St) (shots : List Shot), Reach solidContent solidBeh st ∧
+    WinFlush.flush solidBeh st = .ok (st', shots) := by
+  have h := demo_ok
+  unfold demo at h
+  simp only [bind, Bind.bind] at h
+  have r0 : Reach solidContent solidBeh (St.init 4 8 none) :=
+    Reach.init _ _ 4 8 none (by decide) (by decide) solid_repaints
+  cases h1 : runTreeOp (St.init 4 8 none) (.newWindow 0 ⟨1, 1, 2, 3⟩ false false false false none) with
+  | ub e => rw [h1] at h; cases h
+  | ok st1 =>
+    rw [h1] at h
+    simp only at h
+    have r1 := Reach.tree (.newWindow 0 ⟨1, 1, 2, 3⟩ false false false false none) st1 r0 trivial h1
+    cases h2 : runTreeOp st1 (.newWindow 0 ⟨0, 2, 3, 4⟩ false false false false none) with
+    | ub e => rw [h2] at h; cases h
+    | ok st2 =>
+      rw [h2] at h
+      simp only at h
+      have r2 := Reach.tree (.newWindow 0 ⟨0, 2, 3, 4⟩ false false false false none) st2 r1 trivial h2
+      cases h3 : runTreeOp st2 (.restack .raise 1) with
+      | ub e => rw [h3] at h; cases h
+      | ok st3 =>
+        rw [h3] at h
+        simp only at h
+        have r3 := Reach.tree (.restack .raise 1) st3 r2 (by show isRestack .raise = true; rfl) h3
+        cases h4 : WinFlush.flush solidBeh st3 with
+        | ub e => rw [h4] at h; cases h
+        | ok x4 =>
+          rw [h4] at h
+          simp only at h
+          have r4 := Reach.flush x4.1 x4.2 r3 h4
+          cases h5 : WinFlush.scroll (fun _ _ _ _ _ => true) x4.1 1 ⟨0, 0, 2, 3⟩ 1 0 none true with
+          | ub e => rw [h5] at h; cases h
+          | ok x5 =>
+            rw [h5] at h
+            simp only at h
+            have r5 : Reach solidContent solidBeh x5.1 :=
+              Reach.scroll _ 1 ⟨0, 0, 2, 3⟩ 1 0 none x5.1 x5.2 solidContent solidBeh r4 h5
+                (by intro w l c; split <;> rfl) solid_repaints
+            cases h6 : WinFlush.flush solidBeh x5.1 with
+            | ub e => rw [h6] at h; cases h
+            | ok x6 => exact ⟨x5.1, x6.1, x6.2, r5, h6⟩
 
 /-! ### facts regenerated from the C source on every run -/
 
